@@ -19,7 +19,7 @@
     64-byte transfer unit and a sender the completion can be returned to; and
     no third party talks on the network.  Port names are arbitrary but distinct
     where akita requires it. *)
-From VMem Require Import Pmc PmcLemmas PmcProofs PmcLive PmcBi PmcBi7 PmcExamples.
+From VMem Require Import Pmc PmcLemmas PmcProofs PmcLive PmcBi PmcBi7 PmcExamples PmcBank PmcBankProofs PmcBankExamples.
 From Coq Require Import Permutation.
 From VDrv Require Import Migration MigrationProofs MigrationPages Handshake HandshakeProofs HandshakePages HandshakeMMU HandshakeExamples.
 Open Scope N_scope.
@@ -74,6 +74,119 @@ Proof.
   exact (one_page ra ca la ma rb cb lb mb sa0 sb0 Hra Hrb Hrab Hma Hmb evs r Hok).
 Qed.
 Print Assumptions pmc_copies_one_page.
+
+(** ** Banked local memories ([VMem.PmcBank])
+    MemCtrlFinder is an arbitrary address-to-port mapper; the local memory of a
+    controller is a set of banks, and the bank NAMED IN A REQUEST serves it (a
+    bank stores what it is sent).  [bview finder bs] reads every address
+    through the bank that owns it.
+
+    Stages 10 and 12 with an arbitrary finder: every read / write request they
+    create is addressed to the owner of ITS OWN address, and apart from that
+    destination ([stamp]) they are the stages of the controller model. *)
+Theorem pmc_requests_routed_by_own_address : forall finder loc memc l m s q,
+  Forall (fun w => routed finder (MWrReq w)) (fst (fst (pull_rsps_f finder loc l m))) /\
+  map MWrReq (fst (fst (pull_rsps_f finder loc l m))) =
+    map (stamp finder) (map MWrReq (fst (fst (pull_rsps loc memc l m)))) /\
+  routed finder (MRdReq (mk_read_f finder s q)) /\
+  MRdReq (mk_read_f finder s q) = stamp finder (MRdReq (mk_read s q)).
+Proof.
+  intros. split; [apply pull_rsps_f_routed|]. split; [apply pull_rsps_f_stamp|].
+  split; [apply mk_read_f_routed | apply mk_read_f_stamp].
+Qed.
+Print Assumptions pmc_requests_routed_by_own_address.
+
+(** One request, any finder, any banks: if it is addressed to the owner of its
+    address and its bytes have one owner, the named bank's service is - seen
+    through the owning banks - the service of a flat memory: same data read,
+    same bytes written, and no bank changes at an address it does not own. *)
+Theorem bank_service_through_owner : forall finder bs m,
+  routed finder m -> piece_local finder m ->
+  match bank_serve bs m, mem_serve (bview finder bs) m with
+  | Some (bs', r1), Some (st', r2) =>
+    (forall x, bview finder bs' x = st' x) /\
+    (forall b x, finder x <> b -> bs' b x = bs b x) /\
+    match r1, r2 with
+    | MDReady d1, MDReady d2 => dr_data d1 = dr_data d2 /\ dr_rspto d1 = dr_rspto d2 /\ dr_dst d1 = dr_dst d2
+    | MWDone w1, MWDone w2 => wd_dst w1 = wd_dst w2
+    | _, _ => False
+    end
+  | None, None => True
+  | _, _ => False
+  end.
+Proof. exact bank_serve_flat. Qed.
+Print Assumptions bank_service_through_owner.
+
+(** [pmc_copies_page] lifted through the banked view.  [brun fa fb]: the system
+    of [pmc_copies_page] in which A's memory is a set of banks behind the
+    finder [fa] and B's behind [fb]; every request a memory serves carries the
+    destination stages 10/12 stamped on it and is served by that bank.  For
+    EVERY pair of finders, every initial banks whose views are [sa0]/[sb0] and
+    every run in which the 64-byte pieces of the requested pages have one
+    owner each ([ok_ev_local]; any page size that is a multiple of 64): read
+    through the owning banks, A's memory is the initial memory with the
+    completed pages copied in order (during a transfer: each byte of that
+    page's destination old or new), B's memory is unchanged, and NO bank - on
+    either side - was written at an address it does not own. *)
+Theorem pmc_copies_page_banked : forall ra ca la ma rb cb lb mb sa0 sb0 fa fb bka0 bkb0,
+  names_ok ra la ma rb lb mb ->
+  (forall x, bview fa bka0 x = sa0 x) -> (forall x, bview fb bkb0 x = sb0 x) ->
+  forall evs, Forall (ok_ev_local ca rb fa fb) evs ->
+  let b := brun fa fb (mkB (s_init ra ca la ma rb cb lb mb sa0 sb0) bka0 bkb0) evs in
+  let s := flat b in
+  s = run (s_init ra ca la ma rb cb lb mb sa0 sb0) evs /\
+  crashed (pa s) = false /\ crashed (pb s) = false /\
+  (forall x, bview fb (bkb b) x = sb0 x) /\
+  (forall bk x, fa x <> bk -> bka b bk x = bka0 bk x) /\
+  (forall bk x, fb x <> bk -> bkb b bk x = bkb0 bk x) /\
+  match cur_mig (pa s) with
+  | None => forall x, bview fa (bka b) x = fold_left (copy_req sb0) (completed s) sa0 x
+  | Some r => forall x,
+      bview fa (bka b) x = fold_left (copy_req sb0) (completed s) sa0 x \/
+      (mg_wr r <= x < mg_wr r + mg_size r /\ bview fa (bka b) x = sb0 (mg_rd r + (x - mg_wr r)))
+  end.
+Proof.
+  intros ra ca la ma rb cb lb mb sa0 sb0 fa fb bka0 bkb0 (Hra & Hrb & Hrab & Hma & Hmb) Hva Hvb evs Hok.
+  exact (banked_copies_page_local ra ca la ma rb cb lb mb sa0 sb0 fa fb Hra Hrb Hrab Hma Hmb
+           bka0 bkb0 Hva Hvb evs Hok).
+Qed.
+Print Assumptions pmc_copies_page_banked.
+
+(** mem.InterleavedAddressPortMapper (bank = address / granularity mod number
+    of banks): any number of banks, any granularity that is a multiple of 64 -
+    smaller than, equal to or larger than the page -, 64-aligned pages. *)
+Theorem interleaved_mapper_pieces_have_one_owner : forall ka na kb nb r,
+  ka <> 0 -> kb <> 0 -> mg_wr r mod 64 = 0 -> mg_rd r mod 64 = 0 ->
+  req_local (interleaved (64 * ka) na) (interleaved (64 * kb) nb) r.
+Proof. exact interleaved_req_local. Qed.
+Print Assumptions interleaved_mapper_pieces_have_one_owner.
+
+(** The destination looked up once per page ([stamp_page]) instead of per
+    request: the byte lands in a bank that does not own it and is not there
+    when the address is read through its owner. *)
+Example lookup_once_per_page_loses_bytes :
+  let finder := interleaved 1024 2 in
+  let bs : banks := fun _ _ => 0 in
+  let q := mkWrReq 3 0 1024 [7] in
+  match bank_serve bs (stamp_page finder 0 (MWrReq q)) with
+  | Some (bs', _) => bview finder bs' 1024 = 0 /\ bs' 0 1024 = 7 /\ finder 1024 = 1
+  | None => False
+  end.
+Proof. exact page_stamp_loses_bytes. Qed.
+
+(** non-vacuity: two migrations over 2 and 3 banks interleaved at 64 bytes; the
+    128-byte page ends up half in bank 0 and half in bank 1 of A *)
+Example banked_demo :
+  let b := brun demo_fa demo_fb
+             (mkB (std_sys (gen_store 3 1) (gen_store 5 2))
+                  (demo_banks demo_fa (gen_store 3 1)) (demo_banks demo_fb (gen_store 5 2)))
+             demo_schedule in
+  Forall (ok_ev_local CA RB demo_fa demo_fb) demo_schedule /\
+  cur_mig (pa (flat b)) = None /\ length (completed (flat b)) = 2%nat /\
+  read (bview demo_fa (bka b)) 2048 128 = read (gen_store 5 2) 1024 128 /\
+  read (bka b 0) 2048 64 = read (gen_store 5 2) 1024 64 /\ bka b 1 2048 = 99 /\
+  read (bka b 1) 2112 64 = read (gen_store 5 2) 1088 64 /\ bka b 0 2112 = 99.
+Proof. exact demo_banked_ok. Qed.
 
 (** Completion responses: everything A ever put (or is about to put) on its
     control port is exactly one response per completed request, in request
